@@ -59,7 +59,7 @@ class BuildFailure(Exception):
         return c
 
 
-def build_system(states, gen, rng, sysname="sys", shared=None):
+def build_system(states, gen, rng, sysname="sys", shared=None, first="a"):
     """replay a SpecBuild behaviour with numeric components; returns the System.  Every call of such a behaviour
     is accepted by the specification (SysTree guards); a call the library refuses raises BuildFailure"""
     from sysloss.system import System
@@ -97,7 +97,13 @@ def build_system(states, gen, rng, sysname="sys", shared=None):
 
     with warnings.catch_warnings():
         warnings.simplefilter("ignore")
-        s = System(sysname, build(gen.desc("Source", "a")))
+        # (the initial source of a renamed behaviour carries the renamed name)
+        try:
+            if first == "a" and states and "a" not in states[-1]["sys"]["comps"] and TRICKY["a"] in states[-1]["sys"]["comps"]:
+                first = TRICKY["a"]
+        except Exception:
+            pass
+        s = System(sysname, build(gen.desc("Source", first)))
         for st in states:
             op, a = st["act"]["op"], st["act"]["a"]
             try:
@@ -122,8 +128,10 @@ def solve_case(s, cid, rail_rep=False, **kw):
             "has_slice": False, "slice_of": {"cols": ["none"], "rows": [], "isnone": True}}
     if s is None:
         return case
+    import contextlib
+    import io
     try:
-        with warnings.catch_warnings():
+        with warnings.catch_warnings(), contextlib.redirect_stdout(io.StringIO()):
             warnings.simplefilter("ignore")
             df = s.solve(**kw)
         case["table"] = table_wire(df)
@@ -132,7 +140,7 @@ def solve_case(s, cid, rail_rep=False, **kw):
         return case
     if rail_rep:
         try:
-            with warnings.catch_warnings():
+            with warnings.catch_warnings(), contextlib.redirect_stdout(io.StringIO()):
                 warnings.simplefilter("ignore")
                 rr = s.rail_rep(**kw)
             case["rail"] = table_wire(rr)
@@ -188,3 +196,32 @@ def move_leaf(s, rng):
                 s.add_comp(h, comp=build(desc_of(comps[n])), group=comps[n]["group"], rail=comps[n]["rail"])
             return "moved %s below %s" % (n, h)
     return None
+
+
+TRICKY = {"a": "V", "b": "V 1", "c": "V 12", "d": "v", "e": "V 1 b", "f": "Sys", "g": "Subsys V", "h": "load.1",
+          "i": "load.10", "j": "L-1", "k": "L_1", "l": "System total x"}
+
+
+def rename_behaviour(states, mapping=TRICKY):
+    """the same construction history with other component names: names that are prefixes of one another, differ in
+    case only, contain blanks / dots, or resemble the names of the aggregate rows"""
+    import copy
+    m = lambda x: mapping.get(x, x)
+    out = copy.deepcopy(states)
+    for st in out:
+        a = st["act"]["a"]
+        if isinstance(a, dict):
+            if "comp" in a:
+                a["comp"]["name"] = m(a["comp"]["name"])
+            if "refs" in a:
+                a["refs"] = [m(r) for r in a["refs"]]
+            if "ref" in a:
+                a["ref"] = m(a["ref"])
+            if "target" in a:
+                a["target"] = m(a["target"])
+        sy = st.get("sys")
+        if isinstance(sy, dict) and "comps" in sy:
+            sy["comps"] = {m(k): v for k, v in sy["comps"].items()}
+            sy["par"] = {m(k): [m(x) for x in v] for k, v in sy["par"].items()}
+            sy["pconf"] = {m(k): v for k, v in sy["pconf"].items()}
+    return out
